@@ -277,16 +277,24 @@ func (m *Markdown) renderListItem(w io.Writer, n *ast.ListItem, src []byte) erro
 func (m *Markdown) renderHTMLBlock(w io.Writer, n *ast.HTMLBlock, src []byte) error {
 	for i := 0; i < n.Lines().Len(); i++ {
 		line := n.Lines().At(i)
-		if _, err := w.Write(line.Value(src)); err != nil {
+		if _, err := w.Write(secureNUL(line.Value(src))); err != nil {
 			return err
 		}
 	}
 	if n.HasClosure() {
-		if _, err := w.Write(n.ClosureLine.Value(src)); err != nil {
+		if _, err := w.Write(secureNUL(n.ClosureLine.Value(src))); err != nil {
 			return err
 		}
 	}
 	return nil
+}
+
+// secureNUL replaces U+0000 by U+FFFD (CommonMark 2.3, "insecure characters").
+func secureNUL(b []byte) []byte {
+	if bytes.IndexByte(b, 0) < 0 {
+		return b
+	}
+	return bytes.ReplaceAll(b, []byte{0}, []byte("\uFFFD"))
 }
 
 // renderTable renders a GFM table by collecting header and body cells into
@@ -416,7 +424,7 @@ func (m *Markdown) renderInlineNode(w io.Writer, node ast.Node, src []byte) erro
 
 // resolve unescapes backslash escapes and resolves character references.
 func resolve(b []byte) string {
-	return string(util.ResolveEntityNames(util.ResolveNumericReferences(util.UnescapePunctuations(b))))
+	return string(secureNUL(util.ResolveEntityNames(util.ResolveNumericReferences(util.UnescapePunctuations(b)))))
 }
 
 // textHTML renders a text segment as HTML text.
